@@ -268,6 +268,33 @@ def _cp_keep(e, marked):
     return cp(e)
 
 
+def read_then_advance(events):
+    """`x += 1` followed by an event that reads the value x had BEFORE (written
+    x_OLD) is the same as that event followed by `x += 1`: the canonical order is
+    read first, then advance"""
+    ev = list(events)
+    changed = True
+    while changed:
+        changed = False
+        for i in range(1, len(ev)):
+            a, b = ev[i - 1], ev[i]
+            if a[0] == "aug" and isinstance(a[1], str) and a[1].isidentifier():
+                old = a[1] + "_OLD"
+                txt = repr(b)
+                import re
+                if old in txt and not re.search(r"\b" + re.escape(a[1]) + r"\b(?!_OLD)", txt):
+                    def ren(o):
+                        if isinstance(o, tuple):
+                            return tuple(ren(z) for z in o)
+                        if isinstance(o, str):
+                            return re.sub(r"\b" + re.escape(old) + r"\b", a[1], o)
+                        return o
+                    ev[i - 1], ev[i] = ren(b), a
+                    changed = True
+                    break
+    return tuple(ev)
+
+
 def table(stmts, decide, env=None, cases=None):
     """{frozenset(case items) -> events} for a statement list"""
     out = {}
